@@ -6,7 +6,9 @@
      (2) the rule system R: violations F S' where S' is a SUBSET of the implementation's facts selected by this
          (untrusted) driver: the marks of spec origins (parameter / free variable / call result with a summary node)
          located at points reachable from the origin's own point (at the origin's point itself only on the origin's value and the
-         value defined there, unless that point lies on a CFG cycle), plus all summary edges.  The selection drops artefacts of the
+         value defined there, unless that point lies on a CFG cycle), on values that have a definition (not constants,
+         globals, functions: the implementation's base-object rule can put marks on a shared *ssa.Const, and transferCopy
+         deliberately does not transfer from constants), plus all summary edges.  The selection drops artefacts of the
          implementation's backward RunDefers edges and base-object propagation (a call's mark on its own arguments).  It is
          untrusted by construction: the verified checker proves S' closed w.r.t. the FULL CFG and rule system, and every
          Edge fact of S' is a real summary edge, so closed_covers_chains applies to the real summary;
@@ -114,6 +116,8 @@ let flush_fn (s : st) =
         if x <= npts && Bytes.get seen x = '0' then (Bytes.set seen x '1'; go (succ_tbl.(x) @ w)) else go w in
     if p0 <= npts then (Bytes.set seen p0 '1'; go succ_tbl.(p0));
     (seen, !oncycle) in
+  let has_def = Hashtbl.create 64 in
+  List.iter (fun (v, _) -> Hashtbl.replace has_def v ()) s.defs;
   let sel = Hashtbl.create 16 in
   List.iter (fun (m, pt, v) -> if is_r pt then Hashtbl.replace sel m (pt, v, reach_from pt)) s.origins;
   let nsel = ref 0 in
@@ -125,7 +129,7 @@ let flush_fn (s : st) =
          | None -> false
          | Some (p0, v0, (seen, oncycle)) ->
            let pi = int_of_pos pp in
-           let keep = pi <= npts && Bytes.get seen pi = '1' && (pi <> p0 || int_of_pos vv = v0 || oncycle || List.mem (int_of_pos vv, p0) s.defs) in
+           let keep = pi <= npts && Bytes.get seen pi = '1' && Hashtbl.mem has_def (int_of_pos vv) && (pi <> p0 || int_of_pos vv = v0 || oncycle || List.mem (int_of_pos vv, p0) s.defs) in
            if keep then incr nsel; keep)) s.facts in
   let vs = violations f facts' in
   let nv = List.length vs in
